@@ -4,7 +4,7 @@ NOTES = ("Technique: explicit TLA+ specifications + TLC, bound to the code by sp
          "Known genuine defects are listed in known_findings.json. See DESIGN.md.")
 comp("C17", "specs/lib/OneSlot.tla", "Forwarder and Pipe as one-slot buffers")
 comp("C16", "specs/lib/Stack.tla", "Stack as a bounded LIFO")
-CORE_NOTE = ("Designs come from a bounded grammar (<=4 transactions, <=4 methods, nesting <=2); the conflict relation and "
+CORE_NOTE = ("Designs come from a bounded grammar (<=4 transactions, <=4 methods -- <=6 in the Methods-vector family of C03-C05 --, nesting <=2); the conflict relation and "
              "priority orders are the specification's and are inferred, never read from the manager; Amaranth's Python "
              "simulator is trusted.")
 def core(pid, what):
